@@ -410,6 +410,56 @@ impl<K: Hash + Eq, KH: KeyHasher<K>> TinyLFU<K, KH> {
     }
 }
 
+/// Raw estimator state, produced by `TinyLFU::verif_state` (verification hook).
+#[cfg(feature = "verif-hooks")]
+#[doc(hidden)]
+#[derive(Debug, Clone, PartialEq, Eq)]
+pub struct VerifTinyLFUState {
+    /// accesses + try_resets since the last reset
+    pub w: usize,
+    /// configured sample size
+    pub samples: usize,
+    /// doorkeeper words
+    pub bloom_bitset: alloc::vec::Vec<u64>,
+    /// doorkeeper `size_exp`
+    pub bloom_size_exp: u64,
+    /// doorkeeper index mask (`size - 1`)
+    pub bloom_mask: u64,
+    /// doorkeeper number of probes
+    pub bloom_set_locs: u64,
+    /// doorkeeper shift
+    pub bloom_shift: u64,
+    /// sketch index mask
+    pub sketch_mask: u64,
+    /// sketch seeds (empty for the no_std sketch)
+    pub sketch_seeds: alloc::vec::Vec<u64>,
+    /// sketch rows, packed nibbles
+    pub sketch_rows: alloc::vec::Vec<alloc::vec::Vec<u8>>,
+}
+
+#[cfg(feature = "verif-hooks")]
+impl<K, KH> TinyLFU<K, KH> {
+    /// Verification hook: dump the whole estimator state.
+    #[doc(hidden)]
+    pub fn verif_state(&self) -> VerifTinyLFUState {
+        let (bloom_bitset, bloom_size_exp, bloom_mask, bloom_set_locs, bloom_shift) =
+            self.doorkeeper.verif_state();
+        let (sketch_mask, sketch_seeds, sketch_rows) = self.ctr.verif_state();
+        VerifTinyLFUState {
+            w: self.w,
+            samples: self.samples,
+            bloom_bitset,
+            bloom_size_exp,
+            bloom_mask,
+            bloom_set_locs,
+            bloom_shift,
+            sketch_mask,
+            sketch_seeds,
+            sketch_rows,
+        }
+    }
+}
+
 #[cfg(test)]
 pub(crate) mod test {
     use core::hash::Hasher;
